@@ -573,6 +573,9 @@ func UnmarshalVectorYAML(value *yaml.Node) (*GeneralizedType, error) {
 			if length.Sign() < 0 {
 				return nil, parseError(v, "vector length cannot be negative")
 			}
+			if !length.IsUint64() {
+				return nil, parseError(v, "vector length is out of range")
+			}
 			asUint64 := length.Uint64()
 			vector.Length = &asUint64
 		default:
@@ -912,6 +915,9 @@ func (dimension *ArrayDimension) UnmarshalYAML(value *yaml.Node) error {
 		}
 		if length.Sign() < 0 {
 			return parseError(value, "array dimension length cannot be negative")
+		}
+		if !length.IsUint64() {
+			return parseError(value, "array dimension length is out of range")
 		}
 		asUnit64 := length.Uint64()
 		dimension.Length = &asUnit64
